@@ -2526,6 +2526,15 @@ impl XmlElement {
         }
     }
 
+    /// Removes the attribute with this id, whatever other attributes are called.
+    pub fn remove_attribute_by_id(&mut self, id: usize) -> Option<Rc<XmlItem>> {
+        let index = self.attributes.iter().position(|v| v.id() == id)?;
+        let v = self.attributes.remove(index);
+        v.clear_order();
+        v.set_parent_id(None);
+        Some(v)
+    }
+
     pub fn set_local_name(&mut self, local_name: &str) {
         self.local_name = local_name.to_string();
     }
